@@ -30,6 +30,18 @@ def _check(desc):
     merchant = suggest_merchant_name(desc)
     rule = suggest_merchants_rule(merchant, pattern)
     rule = rule.replace('category: CATEGORY', 'category: Food').replace('subcategory: SUBCATEGORY', 'subcategory: Sub')
+    # the user's file already holds a look-alike rule (the same expression with the letter case of its regex escapes swapped:
+    # \\s <-> \\S ...), evaluated before the suggested one - a suggestion must work next to the rules that are there
+    from tally import expr_parser
+    for line in rule.splitlines():
+        if line.strip().lower().startswith('match:'):
+            expr = line.split(':', 1)[1].strip()
+            twin = ''.join((c.swapcase() if (i > 0 and expr[i - 1] == chr(92) and c in 'sSdDwWbB') else c) for i, c in enumerate(expr))
+            if twin != expr:
+                try:
+                    expr_parser.matches_transaction(twin, {'description': desc, 'amount': 1.0})
+                except Exception:
+                    pass
     try:
         eng = parse_merchants(rule)
     except MerchantParseError:
@@ -68,6 +80,9 @@ SKELETONS = {
     'quoted': 'THE "{w1}" {w2}',
     'quote-hash': '{w1}" #{w2}',
     'four-words': '{w1} {w2} {w3} x',
+    'open-paren': '{w1} {w2} (LOT 4',
+    'paren-cut': '{w1} CLIPS ({w2} MALL) BELLEVUE WA',
+    'paren-balanced': 'SQ *{w1} ({w2}) SEATTLE WA',
 }
 
 
